@@ -841,3 +841,26 @@ impl<E: Effect, R: CommandReceiver<E>, S: EventSender<E>> Worker<E, R, S> {
         &self.executor
     }
 }
+
+/// Verification hooks (feature `verif`): read-only views of the await bookkeeping
+/// (`awaited`, `awaiters_for_target`), in a canonical order.
+#[cfg(feature = "verif")]
+impl<E: Effect, R: CommandReceiver<E>, S: EventSender<E>> Worker<E, R, S> {
+    /// Targets on this worker that some awaiter is waiting for, ascending.
+    pub fn verif_awaited(&self) -> Vec<ProcessId> {
+        let mut v: Vec<ProcessId> = self.awaited.iter().copied().collect();
+        v.sort_unstable();
+        v
+    }
+
+    /// (target, its awaiters in registration order), ascending by target.
+    pub fn verif_awaiters_for_target(&self) -> Vec<(ProcessId, Vec<ProcessId>)> {
+        let mut v: Vec<(ProcessId, Vec<ProcessId>)> = self
+            .awaiters_for_target
+            .iter()
+            .map(|(t, a)| (*t, a.clone()))
+            .collect();
+        v.sort_unstable_by_key(|(t, _)| *t);
+        v
+    }
+}
